@@ -50,8 +50,10 @@ type AnteCase struct {
 	FeeDenom string   `json:"fee_denom"`
 	FeeAmt   string   `json:"fee_amount"`
 	Gas      uint64   `json:"gas"`
-	Prices   []string `json:"gas_prices,omitempty"` // settlement gas price parameter (DecCoins), "" = default
-	Q        string   `json:"oracle_fee,omitempty"`
+	Fees     [][2]string `json:"fees,omitempty"`       // offered fee coins (denom, amount); overrides fee_denom / fee_amount
+	Prices   [][2]string `json:"gas_prices,omitempty"` // settlement gas price parameter (denom, Dec), empty = default
+	Q        string      `json:"oracle_fee,omitempty"`
+	ExpectFail bool      `json:"expect_fail,omitempty"` // the actor is not an admin: the (admitted) messages fail in their handler
 }
 
 const anteSalt = "ABCD"
@@ -371,11 +373,87 @@ func GenAnteCase(seed uint64, idx int) AnteCase {
 		}
 		c.Gas = g + uint64(r.Intn(5000000))
 	}
+	if allS && r.Chance(60) {
+		// governance-set parameters: 1-3 configured prices, an oracle share; offered fees around the requirement
+		pool := map[string][]string{
+			"uusdc": {"1", "0.5", "2.333333333333333333", "0.000000000000000001", "7"},
+			"setl":  {"0.0001", "0.000000000000000001", "0.00000000000001"},
+			"utok":  {"3", "0.25", "0.000001"},
+		}
+		denoms := []string{"setl", "utok", "uusdc"} // DecCoins are kept sorted by denomination
+		for _, d := range denoms {
+			if r.Chance(60) {
+				c.Prices = append(c.Prices, [2]string{d, pool[d][r.Intn(len(pool[d]))]})
+			}
+		}
+		if len(c.Prices) == 0 {
+			c.Prices = [][2]string{{"uusdc", "1"}}
+		}
+		c.Q = []string{"0", "1", "0.5", "0.000000000000000001", "0.333333333333333333", "0.9", "0.999999999999999999"}[r.Intn(7)]
+		g := settlementGas(c.Msgs)
+		c.Gas = g + uint64(r.Intn(1000))
+		c.Fees = nil
+		for _, p := range c.Prices {
+			if !r.Chance(65) {
+				continue
+			}
+			denom := p[0]
+			price := sdk.MustNewDecFromStr(p[1])
+			if denom == "setl" { // the parameter is normalised to the base denomination
+				denom = "asetl"
+				price = price.MulInt(sdk.DefaultPowerReduction.MulRaw(1000000000000))
+			}
+			req := price.MulInt(sdk.NewIntFromUint64(g)).TruncateInt()
+			off := req
+			switch r.Intn(5) {
+			case 0:
+				off = req.SubRaw(1)
+			case 1:
+				off = req.AddRaw(1)
+			case 2:
+				off = req.AddRaw(int64(r.Intn(1000000)))
+			}
+			if off.IsPositive() {
+				c.Fees = append(c.Fees, [2]string{denom, off.String()})
+			}
+		}
+	}
+	if allS && r.Chance(25) {
+		// charged whether or not the messages succeed: a stranger sends messages only an admin may send
+		ok := true
+		for _, m := range c.Msgs {
+			if m.Kind == "s0" || m.Kind == "s1" || m.Kind == "s5" {
+				ok = false
+			}
+		}
+		if ok {
+			c.Actor = roleStranger
+			c.ExpectFail = true
+		}
+	}
 	// explicit fee payer for single oracle messages: the operator pays for a stranger's message, or the reverse
 	if len(c.Msgs) == 1 && isO(c.Msgs[0].Kind) && r.Chance(35) {
 		c.FeePayer = []int{roleOperator, roleFeeder, roleFormer, roleStranger}[r.Intn(4)]
 	}
 	return c
+}
+
+func (c AnteCase) offered() sdk.Coins {
+	var coins sdk.Coins
+	if len(c.Fees) > 0 {
+		for _, f := range c.Fees {
+			a, ok := sdk.NewIntFromString(f[1])
+			if ok && a.IsPositive() {
+				coins = coins.Add(sdk.NewCoin(f[0], a))
+			}
+		}
+		return coins
+	}
+	amt, _ := sdk.NewIntFromString(c.FeeAmt)
+	if amt.IsPositive() {
+		coins = sdk.NewCoins(sdk.NewCoin(c.FeeDenom, amt))
+	}
+	return coins
 }
 
 type AnteObs struct {
@@ -384,15 +462,16 @@ type AnteObs struct {
 	OracleChanged   bool
 	SettleChanged   bool
 	ValidatorsAdded bool
-	PayerDelta      [][2]string // denom, delta of the fee payer's balance
-	CollectorDelta  [][2]string
-	PoolDelta       [][2]string
+	PayerDelta      [][2]string // denom, amount: what the ante handler took from the fee payer (negative)
+	CollectorDelta  [][2]string // ... and sent to the fee collector
+	PoolDelta       [][2]string // ... and to the oracle reward pool
+	Burned          string      // what the evmos post handler burnt from the fee collector afterwards
 	GasUsed         int64
 }
 
 func anteBaseHistory() History {
 	g := HGenesis{Powers: []int64{3, 2}, Probono: []string{"", ""}, NAccts: 10, VotePeriod: 4, Threshold: "0.5", SlashFrac: "0.01",
-		Window: 8, MaxMiss: 2, Chains: []string{"1"}, Funds: 1000000}
+		Window: 8, MaxMiss: 2, Chains: []string{"1"}, Funds: 1000000, BigFunds: true}
 	commit := anteSalt + anteEntry
 	evs := []Event{
 		{Kind: "begin"},
@@ -452,11 +531,28 @@ func runAnteCase(c AnteCase) (*Exec, *anteExec, AnteObs, string) {
 	if pi != nil {
 		panic("ante base genesis: " + pi.Msg)
 	}
-	if len(c.Prices) > 0 || c.Q != "" {
-		sp := e.C.App.SettlementKeeper.GetParams(e.C.Ctx())
-		_ = sp
-	}
 	obs := e.Run()
+	if len(c.Prices) > 0 || c.Q != "" {
+		// parameters as governance would set them, in the begin phase of the block of the case
+		ctx := e.C.Ctx()
+		sp := e.C.App.SettlementKeeper.GetParams(ctx)
+		if len(c.Prices) > 0 {
+			var dcs []sdk.DecCoin
+			for _, p := range c.Prices {
+				dcs = append(dcs, sdk.NewDecCoinFromDec(p[0], sdk.MustNewDecFromStr(p[1])))
+			}
+			sp.GasPrices = sdk.NewDecCoins(dcs...)
+		}
+		if c.Q != "" {
+			sp.OracleFeePercentage = sdk.MustNewDecFromStr(c.Q)
+		}
+		e.C.App.SettlementKeeper.SetParams(ctx, sp)
+		e.gasPrices = nil
+		for _, gp := range sp.GasPrices {
+			e.gasPrices = append(e.gasPrices, sdk.NormalizeDecCoin(gp))
+		}
+		e.oracleFee = sp.OracleFeePercentage
+	}
 	for i, o := range obs {
 		if (h.Events[i].Kind == "tx" || h.Events[i].Kind == "otx") && o.Class != "ok" {
 			panic(fmt.Sprintf("ante base state: event %d failed: %s", i, o.Log))
@@ -468,11 +564,7 @@ func runAnteCase(c AnteCase) (*Exec, *anteExec, AnteObs, string) {
 	for _, m := range c.Msgs {
 		msgs = append(msgs, x.sdkMsg(m))
 	}
-	amt, _ := sdk.NewIntFromString(c.FeeAmt)
-	ts := TxSpec{Msgs: msgs, Gas: c.Gas}
-	if amt.IsPositive() {
-		ts.Fee = sdk.NewCoins(sdk.NewCoin(c.FeeDenom, amt))
-	}
+	ts := TxSpec{Msgs: msgs, Gas: c.Gas, Fee: c.offered()}
 	payer := ch.Accts[c.Actor].Addr
 	if c.FeePayer >= 0 {
 		ts.FeePayer = ch.Accts[c.FeePayer].Addr
@@ -490,9 +582,63 @@ func runAnteCase(c AnteCase) (*Exec, *anteExec, AnteObs, string) {
 	o.OracleChanged = oracleDigest(e) != od
 	o.SettleChanged = settleDigest(e) != sd
 	o.ValidatorsAdded = len(ch.App.StakingKeeper.GetAllValidators(ch.Ctx())) != nv
-	o.PayerDelta = balDelta(pb, balMap(ch, payer))
-	o.CollectorDelta = balDelta(cb, balMap(ch, authtypes.NewModuleAddress(authtypes.FeeCollectorName)))
-	o.PoolDelta = balDelta(ob, balMap(ch, authtypes.NewModuleAddress(oracletypes.ModuleName)))
+	_, _, _ = pb, cb, ob
+	// the transfers of the ante handler, read from the bank events that precede the `tx` fee event
+	coll := authtypes.NewModuleAddress(authtypes.FeeCollectorName).String()
+	pool := authtypes.NewModuleAddress(oracletypes.ModuleName).String()
+	sum := map[string]map[string]sdk.Int{"spent": {}, "coll": {}, "pool": {}}
+	add := func(k string, amount string, neg bool) {
+		coins, err := sdk.ParseCoinsNormalized(amount)
+		if err != nil {
+			return
+		}
+		for _, cn := range coins {
+			cur, ok := sum[k][cn.Denom]
+			if !ok {
+				cur = sdk.ZeroInt()
+			}
+			if neg {
+				sum[k][cn.Denom] = cur.Sub(cn.Amount)
+			} else {
+				sum[k][cn.Denom] = cur.Add(cn.Amount)
+			}
+		}
+	}
+	for _, ev := range r.Events {
+		if ev.Type == "tx" {
+			break
+		}
+		switch ev.Type {
+		case "coin_spent":
+			if attr(ev, "spender") == payer.String() {
+				add("spent", attr(ev, "amount"), true)
+			}
+		case "coin_received":
+			if attr(ev, "receiver") == coll {
+				add("coll", attr(ev, "amount"), false)
+			}
+			if attr(ev, "receiver") == pool {
+				add("pool", attr(ev, "amount"), false)
+			}
+		}
+	}
+	for _, ev := range r.Events {
+		if ev.Type == "burn" {
+			o.Burned += attr(ev, "amount") + ";"
+		}
+	}
+	toPairs := func(m map[string]sdk.Int) [][2]string {
+		var out [][2]string
+		for _, d := range []string{"asetl", "uusdc", "setl", "utok", "utwo"} {
+			if v, ok := m[d]; ok && !v.IsZero() {
+				out = append(out, [2]string{d, v.String()})
+			}
+		}
+		return out
+	}
+	o.PayerDelta = toPairs(sum["spent"])
+	o.CollectorDelta = toPairs(sum["coll"])
+	o.PoolDelta = toPairs(sum["pool"])
 	return e, x, o, model
 }
 
@@ -586,17 +732,17 @@ func runAnteCmd(args []string) {
 		if hasKind(c.Msgs, func(k string) bool { return k == "o2" }) && c.Actor != roleOperator {
 			signers = append(signers, e.acctZ(roleOperator))
 		}
-		amt, _ := sdk.NewIntFromString(c.FeeAmt)
-		offered := "[]"
-		if amt.IsPositive() {
-			offered = fmt.Sprintf("[(%s, %s)]", cStr(c.FeeDenom), cZ(amt.BigInt()))
+		var offs []string
+		for _, coin := range c.offered() {
+			offs = append(offs, fmt.Sprintf("(%s, %s)", cStr(coin.Denom), cZ(coin.Amount.BigInt())))
 		}
+		offered := cList(offs)
 		var prices []string
 		for _, p := range e.gasPrices {
 			prices = append(prices, fmt.Sprintf("(%s, %s)", cStr(p.Denom), cZ(p.Amount.BigInt())))
 		}
-		items = append(items, fmt.Sprintf("mkACase %s %d %s %s %s %s (mkFP %s %s) %d %s %s %s %s %s %s %s %d",
-			model, e.C.Height, cList(ms), fp, cList(signers), offered, cList(prices), cZ(e.oracleFee.BigInt()), c.Gas,
+		items = append(items, fmt.Sprintf("mkACase %s %d %s %s %s %s (mkFP %s %s) %d %s %s %s %s %s %s %s %s %d",
+			model, e.C.Height, cList(ms), fp, cList(signers), offered, cList(prices), cZ(e.oracleFee.BigInt()), c.Gas, cBool(c.ExpectFail),
 			classCoq(o.Class), cBool(o.OracleChanged), cBool(o.SettleChanged), cBool(o.ValidatorsAdded),
 			pairsCoq(o.PayerDelta), pairsCoq(o.CollectorDelta), pairsCoq(o.PoolDelta), o.GasUsed))
 		if o.Class == "panic" {
